@@ -1082,7 +1082,8 @@ func genC10(g *G) {
 			A := []s2.Point{ll(-w, l0+sh), ll(-w, 130+sh), ll(-w, -150+sh), ll(-w, -l0+sh), ll(w, -l0+sh), ll(w, -150+sh), ll(w, 130+sh), ll(w, l0+sh)}
 			e := []float64{3e-14, 6e-14, 1e-13, 3e-13, 1e-12, 1e-10, 1e-6}[r.Intn(7)] // degrees short of antipodal: the first ones make B's own bound full
 			q := l0 + 5 + (80-l0)*r.Float()*0.5
-			B := []s2.Point{ll(0.1*w, q+sh), ll(0, 180+sh), ll(-0.1*w, q-180+e+sh)}
+			// thin triangle on the equator: the edge (0,q) -> (0,q-180-e) runs through longitude 180 and is e degrees short of antipodal
+			B := []s2.Point{ll(0, q+sh), ll(0, q-180-e+sh), ll(0.1*w, 180+sh)}
 			if !c04Valid(A) || !c04Valid(B) || !c04LoopsDisjoint([][]s2.Point{A, B}) {
 				continue
 			}
